@@ -78,7 +78,7 @@ CHECKS['C07'] = dict(
 CHECKS['C08'] = dict(
     technique='runtime monitor: structural invariant checker hooked at the quiescent point after designed_network() '
               '(completeness, padding, equal splits, no bare junction, one-in/one-out chains, unchanged adjacency and '
-              'reachability) over generated topologies x configurations',
+              'reachability) over generated topologies x configurations; history: design, extend the designed object, design again',
     text='Every design of a generated well-formed topology is inspected as a whole against its input documents. '
          'Exploration: held on the designs observed; four listed known findings are reproduced by dedicated cases.',
     note='Well-formedness = docs/json.rst + loaders accept; Raman and lumped-loss fibres below max length in the main '
@@ -95,12 +95,14 @@ CHECKS['C09'] = dict(
          'the rule; one listed known finding (step coarsening).', ref='3/C09')
 CHECKS['C10'] = dict(
     technique='runtime monitor: recorded set_one_amplifier / select_edfa calls judged by an independent oracle '
-              '(permitted set from the documents, data-sheet capability, reference NF model); history: library edited in '
-              'place between two designs',
+              '(permitted set from the documents, data-sheet capability, reference NF model); selection targets cross-checked '
+              'against the designed state recorded at the call boundary; multiband preselection oracle on synthetic groups; '
+              'history: library edited in place between two designs',
     text='Every amplifier selection made by auto-design on synthetic overlapping libraries with restrictions at '
          'three levels is recorded and re-judged: membership, Raman rule, capability, NF optimality. Exploration.',
     note='Margins within 1e-9 dB of zero and NF ties not judged; NF optimality for gain-only NF models; multiband '
-         'auto-selection is a listed known finding.', ref='3/C10')
+         'preselection judged when at least one permitted group can deliver every band; two listed known findings on '
+         'multiband auto-selection.', ref='3/C10')
 CHECKS['C11'] = dict(
     technique='runtime monitor: returned routes of the real path computation judged by an independent exhaustive '
               'ROADM-level search (validity, include order, optimal fibre length, STRICT/LOOSE semantics, reverse path); '
@@ -146,11 +148,13 @@ CHECKS['C15'] = dict(
     note='Amplifier bands from the loaded library; amplifiers of one line share some band; 1 kHz float slack on band edges.', ref='3/C15')
 CHECKS['C16'] = dict(
     technique='runtime monitor: history checker over repeated planning() runs on one network object (alone / first / '
-              'last / random orders, near-duplicate twin requests) + canonical network digest (incl. per-band amplifiers '
-              'of multiband elements) + count of propagations touching network objects',
+              'last / random orders, near-duplicate twin requests, generalised-GN batches, synchronisation vectors over batch '
+              'orders, imposed slots) + canonical network digest (incl. per-band amplifiers of multiband elements) + '
+              'attribute-level snapshot of the process-wide SimParams + count of propagations touching network objects',
     text='Every request result (route, mode, metrics, verdict) must be identical in every batch composition and the '
          'network digest unchanged after every run. Exploration over batches with saturating and blocked requests.',
-    note='No synchronisation vectors, no aggregatable duplicates; spectrum labels and spectrum blocking excluded.',
+    note='No aggregatable duplicates; batches with synchronisation vectors compared over orders of the whole batch only; '
+         'spectrum labels and spectrum blocking excluded.',
     ref='3/C16')
 CHECKS['C17'] = dict(
     technique='runtime monitor: idempotence checker over recorded exports (fresh design twice, export/reload/redesign '
@@ -169,7 +173,8 @@ CHECKS['C19'] = dict(
     technique='runtime monitor: response document and CSV of real planning() runs compared with an independent '
               'response builder reading the propagated paths, both receivers and the request objects; aggregation '
               'recomputed from the input; CSV pass flag differential with a moved threshold; event log of every '
-              'propagation (figures copied when it ends) compared with what is reported',
+              'propagation (figures copied when it ends) compared with what is reported; reported mode vs reported figures '
+              '(baud-rate gap between the 0.1 nm and the in-band figures)',
     text='Every response entry and CSV row of generated batches (served, every blocking reason, bidirectional, '
          'aggregated, multi-slot) is rebuilt independently and compared exactly. Exploration.',
     note='Order of ids inside a joined id not judged; two-decimal values compared with a tie-tolerant equality (at most two decimals, within half a unit of the last place).', ref='3/C19')
